@@ -4,9 +4,9 @@ CONSTANTS
   Conns = {"s1"}
   Tracked = {"app", "tz"}
   Untracked = {"wm"}
-  Values = {"d", "v1", "vq"}
+  Values = {"d", "v1", "vc", "vq"}
   Default = "d"
   NONE = NONE
-  MaxOps = 9
+  MaxOps = 11
   Dev = {}
 INVARIANT Emit
